@@ -95,7 +95,7 @@ def profiles(draw):
     return p
 
 
-CALLS = ["swap_toggle", "proc_start", "colors", "colors_hex", "colors_hex_false", "name_version", "cell_size", "kitty", "iterm2", "auto_class", "AutoImage",
+CALLS = ["swap_toggle", "proc_start", "bad_timeout", "colors", "colors_hex", "colors_hex_false", "name_version", "cell_size", "kitty", "iterm2", "auto_class", "AutoImage",
          "from_file", "ratio_fixed", "ratio_dynamic"]
 
 
@@ -202,6 +202,19 @@ def check_queries(c, rec):
                     (TI.disable_win_size_swap if swap else TI.enable_win_size_swap)()
                     swap = not swap
                     got = exp = None
+                elif call == "bad_timeout":
+                    # rejected settings must not take effect ("rejected ... without changing anything" is the library-wide rule)
+                    for bad in (0.0, -1.0, 0):
+                        try:
+                            TI.set_query_timeout(bad)
+                        except (ValueError, TypeError):
+                            pass
+                        else:
+                            raise Violation(f"set_query_timeout({bad!r}) was accepted", {"kind": "timeout_validation"})
+                    if U._query_timeout != timeout:
+                        raise Violation(f"a rejected set_query_timeout() call changed the timeout in effect: {timeout} -> {U._query_timeout} [{ctx}]",
+                                        {"kind": "timeout_rejected_but_set"})
+                    got = exp = None
                 elif call == "proc_start":
                     # the first Process.start() moves the library's locks and its cell-size cache to multi-process objects
                     from multiprocessing import Process
@@ -301,7 +314,7 @@ def rt_cases(draw):
     c["profile"]["delays"] = [draw(st.sampled_from([0.0, 0.002, 0.01, 0.03])) for _ in range(3)]
     c["profile"]["da1"] = True  # a silent terminal would cost a full real-time timeout per query
     c["enabled"] = True
-    c["calls"] = [x for x in c["calls"] if x not in ("swap_toggle", "proc_start")][:2] or ["colors"]
+    c["calls"] = [x for x in c["calls"] if x not in ("swap_toggle", "proc_start", "bad_timeout")][:2] or ["colors"]
     return c
 
 
